@@ -202,6 +202,14 @@ func ruleC15(c *Ctx) {
 			h.pins[fmt.Sprintf("param:g|.%d", fieldIndex(gradT, "Shape"))] = sym.Const(constant.MakeInt64(sv), shapeT)
 			in.Hooks = h
 			_, _, fr := in.Run(at, nil, nil)
+			// the loop over the ranges lives in At itself or in a helper it was split into
+			lfr := fr
+			for _, f := range append([]*sym.Frame{fr}, collectFrames(in.Events)...) {
+				if len(f.Headers()) == 1 {
+					lfr = f
+					break
+				}
+			}
 			key := "render.(*Gradient).At#" + sh
 			var clamp *sym.Event
 			for _, ev := range in.Events {
@@ -242,12 +250,17 @@ func ruleC15(c *Ctx) {
 			nonneg := sym.Bin(tokLEQ, sym.Const(constant.MakeFloat64(0), f64), oT, nil)
 			var sawTransparent, sawFirst, sawLast, sawInterp bool
 			for _, ev := range in.Events {
-				if ev.Kind != "return" || ev.Frame != fr || len(ev.Args) == 0 || ev.Args[0] == nil {
+				if ev.Kind != "return" || (ev.Frame != fr && ev.Frame != lfr) || len(ev.Args) == 0 || ev.Args[0] == nil {
 					continue
 				}
 				val := ev.Args[0]
 				if val.Op == "makeiface" {
 					val = val.Args[0]
+				}
+				if ev.Frame == fr && fr != lfr && (val.Op == "ite" || (val.Op == "atom" && strings.HasPrefix(val.Name, "mem#"))) {
+					// At merely forwards what the helper holding the range loop returned: those returns are classified
+					// where they are made
+					continue
 				}
 				g := ev.Guard
 				switch {
@@ -272,13 +285,13 @@ func ruleC15(c *Ctx) {
 				case val.Key() == last:
 					sawLast = true
 					// reached only after the loop over all ranges is exhausted
-					okLast := len(fr.Headers()) == 1
+					okLast := len(lfr.Headers()) == 1 && ev.Frame == lfr
 					if okLast {
-						hb := at.Blocks[fr.Headers()[0]]
+						hb := lfr.Fn.Blocks[lfr.Headers()[0]]
 						rb := ev.Site.Block()
 						// the return lies behind the loop: dominated by its header and not part of it
 						okLast = hb.Dominates(rb) && rb != hb
-						if cfl := cfgx.New(at, nil); okLast {
+						if cfl := cfgx.New(lfr.Fn, nil); okLast {
 							for _, b := range cfl.Loops[hb.Index] {
 								if b == rb.Index {
 									okLast = false
